@@ -2,6 +2,7 @@
 import z3
 from pyvc.harness import Spec, IntK, ChoiceK, Outcome
 from pyvc.values import *  # noqa
+from pyvc.models_ext2 import PathTok
 from contracts.lib import *  # noqa
 
 LEVEL = "other"
@@ -11,7 +12,7 @@ MANIFEST_ENTRY = {
     "technique": "contract-based deductive verification (pyvc VCs + z3), number of leases bounded",
 }
 EXPLANATION = "All times and policy values symbolic; lease count bounded."
-TRUSTED = ["time.time() is monotone (values modelled as integers)"]
+TRUSTED = ["time.time() is monotone (values modelled as integers)", "ProcessShare stubs shares.get_share_file by a share object with the modelled leases; the dispatch itself (mutable iff the file starts with a mutable magic) is under contract: GetShareFile; the container constructors are C22/C23"]
 ASSUMPTIONS = ["termination not proved"]
 NOT_DECIDED = "configuration parsing in client.py; deletion of the share file by the last cancel_lease is ShareFile/MutableShareFile.cancel_lease (not under contract here)."
 DAY31 = 31 * 24 * 60 * 60
@@ -289,8 +290,95 @@ def extra_checks(rep, tier):
     C48.timezone_check(rep, "C26")
 
 
+def _gen_container(rng):
+    from allmydata.storage.mutable_schema import ALL_SCHEMAS
+    magics = [sc._magic for sc in ALL_SCHEMAS]
+    k = rng.randrange(6)
+    body = bytes(rng.randrange(256) for _ in range(rng.randint(0, 60)))
+    if k == 0:
+        return body
+    m = rng.choice(magics)
+    if k == 1:
+        return m + body
+    if k == 2:
+        return m[:rng.randint(0, len(m) - 1)]                    # truncated magic
+    if k == 3:
+        i = rng.randrange(len(m))
+        return m[:i] + bytes([m[i] ^ 1]) + m[i + 1:] + body      # one byte off
+    return m + body if k == 4 else b"\x00\x00\x00\x02" + body
+
+
+class GetShareFile(Spec):
+    """storage/shares.get_share_file(filename), the dispatch the expirer relies on before it looks at leases: for every
+    file content, a MutableShareFile is returned exactly when the file starts with the magic string of one of the mutable
+    container schemas, otherwise an immutable ShareFile -- always for the file that was asked about."""
+    file = "allmydata/storage/shares.py"
+    qualname = "get_share_file"
+    cross_check = 60
+    raises = ()
+
+    def inputs(self):
+        return {"file0": FileK(_gen_container, maxlen_model=200)}
+
+    def config(self):
+        mk = lambda kind: (lambda I, a, kw: (kind, a[0] if not isinstance(a[0], type) else a[1]))
+        ov = {"mutable.MutableShareFile": mk("mutable"), "immutable.ShareFile": mk("immutable"),
+              "shares.MutableShareFile": mk("mutable"), "shares.ShareFile": mk("immutable")}
+        return {"overrides": ov, "concrete_overrides": ov}
+
+    def run(self, I, a):
+        put_file(I, "home", a["file0"])
+        return I.call_value(self.target(I), [PathTok("home")], {})
+
+    def native(self, a):
+        import os
+        from allmydata.storage.shares import get_share_file
+        from allmydata.storage.mutable import MutableShareFile
+        with TempDir() as d:
+            p = os.path.join(d, "share")
+            with open(p, "wb") as fh:
+                fh.write(a["file0"])
+
+            def f():
+                try:
+                    sf = get_share_file(p)
+                except Exception:
+                    # the constructors validate more than the dispatch does (C22/C23); which one was chosen is what matters here
+                    import traceback
+                    tb = traceback.format_exc()
+                    return ("mutable" if "/mutable.py" in tb else "immutable", "home")
+                return ("mutable" if isinstance(sf, MutableShareFile) else "immutable", "home" if sf.home == p else sf.home)
+            return native_outcome(f)
+
+    def is_mutable(self, a):
+        from allmydata.storage.mutable_schema import ALL_SCHEMAS
+        c, n = as_arr(a["file0"])
+        alts = []
+        for sc in ALL_SCHEMAS:
+            m = sc._magic
+            alts.append(z3.And(n >= len(m), *[z3.Select(c, i) == m[i] for i in range(len(m))]))
+        return z3.Or(alts)
+
+    def ensures(self, I, a, out):
+        kind, path = out.value
+        if I is None:
+            from allmydata.storage.mutable_schema import ALL_SCHEMAS
+            want = any(a["file0"][:len(sc._magic)] == sc._magic for sc in ALL_SCHEMAS)
+            return [("mutable-container-exactly-when-the-file-starts-with-a-mutable-magic", z3.BoolVal((kind == "mutable") == want)),
+                    ("container-is-opened-on-the-file-asked-about", z3.BoolVal(path == "home"))]
+        isp = isinstance(path, PathTok) and path.name == "home"
+        return [("mutable-container-exactly-when-the-file-starts-with-a-mutable-magic", self.is_mutable(a) if kind == "mutable" else z3.Not(self.is_mutable(a))),
+                ("container-is-opened-on-the-file-asked-about", z3.BoolVal(bool(isp)))]
+
+    def canary(self, I, a, out):
+        return [("canary", z3.BoolVal(out.value[0] == "immutable"))]
+
+    def same_result(self, n, s):
+        return n.value[0] == s.value[0]
+
+
 def contracts(tier):
     s = ProcessShare()
     if tier == "thorough":
         s.maxleases = 5
-    return [s, ClientExpiryConfig(), ResumedHistogram()]
+    return [s, ClientExpiryConfig(), ResumedHistogram(), GetShareFile()]
